@@ -60,7 +60,7 @@ class VModel:
                 e = common.hexs(d["explicit"]) if d.get("explicit") else "auto"
                 self.send(("m %d %s %d %s" % (n, e, tok, rs)).strip())
             else:
-                self.send(("p %d 1 %d %s" % (n, tok, rs)).strip())
+                self.send(("p %d %d %d %s" % (n, 0 if d.get("foreign") else 1, tok, rs)).strip())
 
     def ver(self, name):
         return self.send("ver %d" % self.nid(name))
